@@ -262,3 +262,17 @@ CHECKS["C48"] = dict(
     level_note=E1_NOTE + " Names, types and valid examples come from the contracts' own settings tables (simmisc.Specs).",
     parts=[dict(pkg=MISC, run="^TestC48_GovernanceSettings$", quick=300, thorough=30000, floor=10)],
 )
+SCHK = "verifharness/checks/storagechk"
+STORAGE_TECH = "stateful (model-based) property-based testing on the full-chain simulator: generated storage contract histories with an invariant oracle over the contract state after every transaction"
+CHECKS["C12"] = dict(
+    level="exploration", engine="E1", technique=STORAGE_TECH,
+    level_text="Generated storage histories (allocations, write markers of both signs, challenges with pass/fail/mixed responses, updates, blobber replacement, kills, cancel/finalize) run on the real chain with real providers; after every applied transaction the challenge pool of every open allocation must equal the sum of its per-blobber outstanding challenge values exactly, and closed allocations must leave neither node behind.",
+    level_note=E1_NOTE + " Contract state is read through read-only shims that call the contract's own getters on an uncached trie.",
+    parts=[dict(pkg=SCHK, run="^TestC12_ChallengePoolEqualsBlobberValues$", quick=150, thorough=15000, floor=5, timeout_quick=1500)],
+)
+CHECKS["C13"] = dict(
+    level="exploration", engine="E1", technique=STORAGE_TECH,
+    level_text="Same generated storage histories; after every applied transaction each blobber's Allocated must equal the sum of its sizes over the open allocations, its stake pool's TotalOffers the sum of their offers, Allocated <= Capacity right after an assignment, and at the end every open allocation must still be cancellable by its owner on a scratch fork (no offer underflow).",
+    level_note=E1_NOTE,
+    parts=[dict(pkg=SCHK, run="^TestC13_CapacityAndOffers$", quick=150, thorough=15000, floor=5, timeout_quick=1500)],
+)
